@@ -7,7 +7,7 @@ from hypothesis import strategies as st
 from pbt import strategies as S
 from pbt.common import Stats, Sub, Violation
 from pbt.model import Model
-from pbt.sut import curies, mk_converter
+from pbt.sut import curies, mk_converter, mk_incremental_queried
 
 PROPERTY_ID = "C02"
 RULE = (
@@ -50,49 +50,50 @@ def _same_multiset(a, b):
     return sorted(a) == sorted(b)
 
 
-def check(case, stats: Stats) -> None:
+def _check_on(c, case, stats, how, count):
     spec = case["spec"]
     recs, d = spec["records"], spec["delimiter"]
     model = Model(recs, d)
-    c = mk_converter(spec)
     known = model.all_prefixes()
-    stats.cls("converters")
+    if count:
+        stats.cls("converters")
     for p, i in case["pairs"]:
         if d in p:  # outside the property's domain (replay files written by hand could contain it)
             continue
-        stats.ev()
+        if count:
+            stats.ev()
         curie = p + d + i
         exp = model.expand_pair(p, i)
         owner = model.owner(p)
         got = c.expand(curie)
         if got != exp:
-            raise Violation(f"expand({curie!r}) = {got!r}, model says {exp!r}")
+            raise Violation(f"[{how}] expand({curie!r}) = {got!r}, model says {exp!r}")
         got = c.expand_pair(p, i)
         if got != exp:
-            raise Violation(f"expand_pair({p!r}, {i!r}) = {got!r}, model says {exp!r}")
+            raise Violation(f"[{how}] expand_pair({p!r}, {i!r}) = {got!r}, model says {exp!r}")
         got = c.expand_reference(curies.ReferenceTuple(p, i))
         if got != exp:
-            raise Violation(f"expand_reference(({p!r}, {i!r})) = {got!r}, model says {exp!r}")
+            raise Violation(f"[{how}] expand_reference(({p!r}, {i!r})) = {got!r}, model says {exp!r}")
         got = c.is_curie(curie)
         if got is not (exp is not None):
-            raise Violation(f"is_curie({curie!r}) = {got!r}, model says {exp is not None}")
+            raise Violation(f"[{how}] is_curie({curie!r}) = {got!r}, model says {exp is not None}")
         got = c.parse_curie(curie)
         want = None if owner is None else (owner["prefix"], i)
         if (None if got is None else (got[0], got[1])) != want:
-            raise Violation(f"parse_curie({curie!r}) = {got!r}, model says {want!r}")
+            raise Violation(f"[{how}] parse_curie({curie!r}) = {got!r}, model says {want!r}")
         exp_all = model.expand_pair_all(p, i)
         for name, got_all in (("expand_all", c.expand_all(curie)), ("expand_pair_all", c.expand_pair_all(p, i))):
             if exp_all is None:
                 if got_all is not None:
-                    raise Violation(f"{name} for unknown prefix {p!r} returned {got_all!r}")
+                    raise Violation(f"[{how}] {name} for unknown prefix {p!r} returned {got_all!r}")
                 continue
             if got_all is None:
-                raise Violation(f"{name} for known prefix {p!r} returned None, expected {exp_all!r}")
+                raise Violation(f"[{how}] {name} for known prefix {p!r} returned None, expected {exp_all!r}")
             got_all = list(got_all)
             if not got_all or got_all[0] != exp_all[0]:
-                raise Violation(f"{name}({curie!r}) does not start with the canonical expansion {exp_all[0]!r}: {got_all!r}")
+                raise Violation(f"[{how}] {name}({curie!r}) does not start with the canonical expansion {exp_all[0]!r}: {got_all!r}")
             if not _same_multiset(got_all[1:], exp_all[1:]):
-                raise Violation(f"{name}({curie!r}) = {got_all!r}, expected canonical first then exactly {exp_all[1:]!r}")
+                raise Violation(f"[{how}] {name}({curie!r}) = {got_all!r}, expected canonical first then exactly {exp_all[1:]!r}")
         # classification
         klass = None
         if owner is not None and p != owner["prefix"]:
@@ -103,10 +104,27 @@ def check(case, stats: Stats) -> None:
             klass = "identifier-contains-delimiter"
         elif any(q != p and (q.casefold() == p.casefold() or (p and p in q) or (q and q in p)) for q in known):
             klass = "variant-of-other-known-prefix"
-        if exp is None:
+        if exp is None and count:
             stats.cls("unknown-prefix")
-        if klass:
+        if klass and count:
             stats.nontrivial({"records": recs, "delimiter": d, "prefix": p, "identifier": i}, klass)
+
+
+def check(case, stats: Stats) -> None:
+    spec = case["spec"]
+    _check_on(mk_converter(spec), case, stats, "built at once", True)
+    d = spec["delimiter"]
+    n = len(spec["records"])
+
+    def queries(c):
+        for p, i in case["pairs"]:
+            if d in p:
+                continue
+            curie = p + d + i
+            c.expand(curie), c.expand_all(curie), c.expand_pair(p, i), c.expand_pair_all(p, i), c.is_curie(curie), c.parse_curie(curie)
+
+    inc = mk_incremental_queried(spec, list(reversed(range(n))), queries)
+    _check_on(inc, case, stats, "built incrementally with interleaved queries", False)
 
 
 SUBS = [
